@@ -128,11 +128,85 @@ tablecheck.make(globals(), cols=["pwr", "loss", "tr", "tp"], textcols=["warn", "
                 mismatch_filter=boundary_ulp)
 
 _run = run  # noqa: F821
+_replay_table = replay  # noqa: F821
+
+
+def replay(ctx, data):
+    case = data["case"]
+    if isinstance(case, dict) and case.get("kind_order"):
+        from .. import isolate
+        descs, pos = case["descs"], case["position"]
+        seq = isolate.solve_sequence(descs)
+        solo = isolate.solve_sequence([descs[pos]])[0]
+        if seq[pos] != solo:
+            ctx.oracle(case, "warn_iff", "order", {"kind_order": True},
+                       {"what": "the Warnings of a system depend on what the process solved before it", "after_the_others": seq[pos], "alone": solo})
+        return
+    return _replay_table(ctx, data)
+
+
+def kind_order_stream(ctx):
+    """What a component warns about must not depend on which KINDS of components the process has analysed before (a cache filled per
+    class, a default shared by subclasses).  One small system per kind family (the three load kinds; regulator / switch / mux;
+    series loss / rectifier), every component carrying violated limits on several keys; the systems are solved in a fresh
+    interpreter, each ALONE (reference) and all in a shuffled order: every Warnings cell must be the same."""
+    from .. import isolate
+    rng = ctx.rng
+
+    full = [True]
+
+    def lim():
+        keys = ["vi", "vo", "ii", "io", "pi", "po", "pl"]
+        return {k: [0.0, 1e-6] for k in (keys if full[0] else rng.sample(keys, rng.randint(3, 6)))}
+
+    def one_sys(kinds):
+        comps = [{"name": "S", "kind": "source", "args": {"vo": 12.0, "limits": lim()}, "parents": []}]
+        par = "S"
+        for j, k in enumerate(kinds):
+            a = {"pload": {"pwr": 0.5}, "iload": {"ii": 0.1}, "rload": {"rs": 50.0}, "linreg": {"vo": 3.3}, "pswitch": {"rs": 0.1},
+                 "pmux": {"rs": 0.1}, "converter": {"vo": 5.0, "eff": 0.9}, "rloss": {"rs": 0.5}, "vloss": {"vdrop": 0.3},
+                 "rectifier": {"vdrop": 0.4}}[k]
+            c = {"name": "%s%d" % (k, j), "kind": k, "args": dict(a, limits=lim()), "parents": [par]}
+            comps.append(c)
+            if k in ("pload", "iload", "rload"):
+                continue
+            par = c["name"]
+        if comps[-1]["kind"] not in ("pload", "iload", "rload"):
+            comps.append({"name": "L", "kind": "iload", "args": {"ii": 0.05, "limits": lim()}, "parents": [par]})
+        return {"name": "s", "comps": comps, "phases": {}}
+    fams = [["pload"], ["iload"], ["rload"], ["pload", "iload", "rload"], ["linreg"], ["pswitch"], ["pmux"], ["converter"],
+            ["rloss"], ["vloss"], ["rectifier"]]
+    for rep in range(ctx.n(3, 12)):
+        pick = rng.sample(fams, rng.randint(3, 5))
+        if rep == 0:
+            pick = [["pload"], ["iload"], ["rload"]]
+        descs = [one_sys(list(f)) for f in pick]
+        full[0] = False                      # the first sequence carries every key on every component, the others random subsets
+        solo = [isolate.solve_sequence([d])[0] for d in descs]
+        order = list(range(len(descs)))
+        rng.shuffle(order)
+        if rep == 0:
+            order = [0, 1, 2]
+        seq = isolate.solve_sequence([descs[k] for k in order])
+        ctx.stats["kind_order:sequences"] += 1
+        ctx.case(key=["kind_order", pick, order], nontrivial=True, sample={"stream": "kind_order", "families": pick, "order": order})
+        for pos, k in enumerate(order):
+            if seq[pos] != solo[k]:
+                a = {(r[0], r[1]): r[2] for r in seq[pos].get("rows", [])}
+                b = {(r[0], r[1]): r[2] for r in solo[k].get("rows", [])}
+                diff = [[list(key), a.get(key), b.get(key)] for key in sorted(set(a) | set(b)) if a.get(key) != b.get(key)]
+                ctx.oracle({"kind_order": True, "descs": [descs[j] for j in order], "position": pos}, "warn_iff", "order", {"kind_order": True},
+                           {"what": "the Warnings of a system depend on what the process solved before it",
+                            "solved_before": [pick[j] for j in order[:pos]], "system": pick[k],
+                            "cells (phase, component): [after the others, alone in a fresh process]": diff[:6] or "other cells differ",
+                            "error_after_others": seq[pos].get("error"), "error_alone": solo[k].get("error")})
+                return
 
 
 def run(ctx):
     from .. import solved as S
     from .. import tables
+    kind_order_stream(ctx)
     tables.compare(ctx, what=("limits",))                            # applicable keys per class, LIMITS_DEFAULT: model vs live objects
     S.run_witnesses(ctx, per_case)                                   # noqa: F821
     S.run_cases(ctx, ctx.n(150, 4000), gen_fn, per_case, None, carrier="float")   # noqa: F821
